@@ -451,8 +451,9 @@ inductive PrintCtx where
   | menuHeader
   /-- the text below `case k:` / `default:` inside the braces of a message switch (its own `Blk`) -/
   | msgText
-  /-- `switch ( Op(…) )`: `_switch_header_for` is a static method and prints with `str(x)`; `.indent` keeps the
-      value 0 given by the constructor -/
+  /-- `switch ( Op(…) )`: the header handler sets `.indent = decompiler.indent` before `_switch_header_for` prints with
+      `str(x)` (since /repo fix "the decompiler sets the indent of string parameters in switch and if headers"; before it the
+      parameter kept whatever an earlier printing had left on it, 0 from the constructor) -/
   | switchHeader
   /-- SsbScript: every statement sits directly in the routine body -/
   | ssbsArg
@@ -463,7 +464,7 @@ def ctxIndent : PrintCtx → Nat → Nat
   | .opArg, d => d + 1
   | .menuHeader, d => d + 2
   | .msgText, d => d + 3
-  | .switchHeader, _ => 0
+  | .switchHeader, d => d + 1
   | .ssbsArg, _ => 1
 
 end ESV.Lit
